@@ -99,8 +99,7 @@ func (m *c02Model) apply(id string, data any) bool {
 
 // ---- generators ----
 
-// c02Base: a base document: a is any scalar or a map (thorough: or absent,
-// with an optional second key).
+// c02Base: a base document: a is any scalar or a map (thorough: or absent).
 func c02Base() map[string]any {
 	m := map[string]any{}
 	n := 2
@@ -112,9 +111,6 @@ func c02Base() map[string]any {
 		m["a"] = ndScalarNN()
 	case 1:
 		m["a"] = map[string]any{"x": 1}
-	}
-	if vTier() > 0 && ndChoice(2) == 1 {
-		m["b"] = 5
 	}
 	return m
 }
@@ -193,9 +189,6 @@ func c02Data(level int) map[string]any {
 		case 4:
 			m["a"] = map[string]any{}
 		}
-		if vTier() > 0 && level == 0 && ndChoice(2) == 1 {
-			m["b"] = 6
-		}
 		c02Match(m, true)
 		return m
 	}
@@ -222,7 +215,8 @@ func HarnessC02_stream() {
 	c02Three = false
 	c02Lean = false
 	if vTier() == 0 && ndChoice(4) == 0 {
-		// quick: also three base documents, with the reduced menus throughout
+		// quick: also three base documents with two documents per layer, with the reduced menus throughout
+		// (thorough reaches three base documents with one document per layer and the full menus)
 		k = 3
 		layers = 2
 		c02Three = true
@@ -244,7 +238,7 @@ func HarnessC02_stream() {
 		n := 1
 		if l == 0 {
 			n = 1 + ndChoice(2)
-			if k == 3 && vTier() > 0 {
+			if k == 3 && vTier() > 0 && !c02Three {
 				n = 1 // thorough, three base documents: one document per layer (the quick three-document family keeps two)
 			}
 			c02Lean = n == 2
